@@ -28,5 +28,8 @@ class ImportNode(BaseNode):
             node.name = Sign.SEPARATOR.join(path)
             node.indent = self.indent
             node.isource = self.source
+            if env.envtype!=EnvType.DOCS:
+                # the copy already holds the value; do not repeat its injection in this environment
+                node.value_ref = None
             nodes_new.append(node)
         return nodes_new
